@@ -421,7 +421,7 @@ func c17Run(i int64, seed uint64, r *fw.Rec) {
 }
 
 func c17Invalid(rr *prng.R, r *fw.Rec) {
-	bad := []string{"//", "/(/", "/a)/", "/[a/", "/a{2,1}/", "/*a/", "/+/", "/a**/", "/(?P<n/", "/\\k/", "/(?=a)/", "/a\\/", "/(?i/"}
+	bad := []string{"//", "//i", "//m", "//s", "//ims", "//mi", "/(/", "/a)/", "/[a/", "/a{2,1}/", "/*a/", "/+/", "/a**/", "/(?P<n/", "/\\k/", "/(?=a)/", "/a\\/", "/(?i/"}
 	p := bad[rr.Intn(len(bad))]
 	prog := "$match(\"abc\", " + p + ")"
 	r.Begin(prog, "")
